@@ -42,10 +42,26 @@ EXT = {"json": "json", "yaml": "yaml", "json5": "json5"}
 
 LOCALES = ["en", "fr", "de", "pt-BR", "ja"]
 NAMESPACES = ["common", "home"]
-KEYS = ["a", "b", "c", "d", "e", "g", "k_x", "sub", "title", "zz", "m1", "n_2", "B", "Z9", "yes", "null", "x", "inner", "deep"]
+KEYS = ["a", "b", "c", "d", "e", "g", "k_x", "sub", "title", "zz", "m1", "n_2", "B", "Z9", "yes", "null", "x", "inner", "deep",
+        # names with the same Rust identifier (`-` becomes `_`) or differing by case: distinct keys, never two of them in one object
+        "user-name", "user_name", "n-2", "a-b", "a_b", "User_name", "pt_BR"]
+
+
+def ident_of(k):
+    return k.strip().replace("-", "_")
+
+
+def one_per_identifier(keys):
+    """two members of ONE object with the same identifier are a (legitimate) code-generation clash: keep the first"""
+    seen, out = set(), []
+    for k in keys:
+        if ident_of(k) not in seen:
+            seen.add(ident_of(k))
+            out.append(k)
+    return out
 WORDS = ["hello", "world", "Été", "日本語", "a: b", "# not a comment", "it's", 'say "hi"', "back\\slash", "  padded  ", "123", "true",
          "null", "~", "x😀y", "tab\there", "line\nbreak", "-", "[not a list]", "{curly}", "%", "&amp;", "é"]
-VARS = ["name", "count", "n", "who"]
+VARS = ["name", "count", "n", "who", "user_name", "user-name"]
 COMPS = ["b", "i", "em"]
 
 
@@ -133,7 +149,7 @@ def gen_leaf(rng):
 
 def gen_tree(rng, depth=0, nkeys=None, plurals=True):
     n = nkeys if nkeys is not None else rng.randint(2, 7 if depth == 0 else 4)
-    keys = rng.sample(KEYS, min(n, len(KEYS)))
+    keys = one_per_identifier(rng.sample(KEYS, min(n, len(KEYS))))
     out = []
     for k in keys:
         r = rng.random()
@@ -246,6 +262,16 @@ def gen_project(rng):
     for ns in (rng.sample(NAMESPACES, rng.randint(1, 2)) if use_ns else [None]):
         d = gen_tree(rng, 0, None, plurals)
         units.append({"ns": ns, "trees": [d] + [derive_tree(rng, d) for _ in locales[1:]]})
+    for u in units:
+        if rng.random() < 0.3:
+            # the same identifier spelled `user-name` in one object and `user_name` in another (also as a variable name)
+            a, b = rng.choice([("user-name", "user_name"), ("a-b", "a_b"), ("n-2", "n_2")])
+            g1 = [(a, ("str", "first {{ %s }}" % rng.choice([b, "x"]))), ("user0", ("str", "u0")), ("zz", ("int", 1))]
+            g2 = [(b, ("str", "second")), ("aa", ("str", "{{ %s }} and <b>%s</b>" % (a, b)))]
+            for li, t in enumerate(u["trees"]):
+                if li == 0 or rng.random() < 0.8:
+                    t.append(("profile", ("obj", [kv for kv in g1 if li == 0 or rng.random() < 0.7])))
+                    t.append(("settings", ("obj", [kv for kv in g2 if li == 0 or rng.random() < 0.7])))
     for u in units:
         if rng.random() < 0.3:
             pre = (u["ns"] + ":") if u["ns"] else ""
